@@ -12,6 +12,65 @@ mod run;
 
 use run::{Ctx, Tier};
 
+/// Global allocator wrapper: remembers the largest single allocation request of the current
+/// thread (only requests >= 1 MiB are looked at) and refuses requests >= 1 GiB, which makes the
+/// process abort instead of thrashing the machine (C10 observes both).
+pub mod track_alloc {
+    use std::alloc::{GlobalAlloc, Layout, System};
+    use std::cell::Cell;
+    thread_local! {
+        pub static MAX_BIG: Cell<usize> = const { Cell::new(0) };
+    }
+    pub const REFUSE: usize = 1 << 30;
+    pub struct TrackAlloc;
+    #[inline]
+    fn note(size: usize) -> bool {
+        if size >= (1 << 20) {
+            let _ = MAX_BIG.try_with(|m| {
+                if size > m.get() {
+                    m.set(size)
+                }
+            });
+            if size >= REFUSE {
+                return false;
+            }
+        }
+        true
+    }
+    unsafe impl GlobalAlloc for TrackAlloc {
+        unsafe fn alloc(&self, l: Layout) -> *mut u8 {
+            if !note(l.size()) {
+                return std::ptr::null_mut();
+            }
+            System.alloc(l)
+        }
+        unsafe fn alloc_zeroed(&self, l: Layout) -> *mut u8 {
+            if !note(l.size()) {
+                return std::ptr::null_mut();
+            }
+            System.alloc_zeroed(l)
+        }
+        unsafe fn dealloc(&self, p: *mut u8, l: Layout) {
+            System.dealloc(p, l)
+        }
+        unsafe fn realloc(&self, p: *mut u8, l: Layout, new_size: usize) -> *mut u8 {
+            if !note(new_size) {
+                return std::ptr::null_mut();
+            }
+            System.realloc(p, l, new_size)
+        }
+    }
+    pub fn reset() {
+        MAX_BIG.with(|m| m.set(0));
+    }
+    pub fn max_big() -> usize {
+        MAX_BIG.with(|m| m.get())
+    }
+}
+
+#[global_allocator]
+static GLOBAL: track_alloc::TrackAlloc = track_alloc::TrackAlloc;
+
 fn usage() -> ! {
     eprintln!("usage: vh check <ID> [--tier quick|thorough] | vh replay <ID> <file> | vh worker <mode> ...");
     std::process::exit(2);
